@@ -64,6 +64,7 @@ def check(prop, tier, runs_override=None):
     coverage["seeds"] = {"VERIF_SEED": seed, "first_run_index": 0, "last_run_index": len(results) - 1}
     n_viol = sum(len(r.get("violations", [])) for r in results)
     coverage["violating_runs"] = sum(1 for r in results if r.get("violations"))
+    coverage["discarded_runs"] = sum(n for k, n in coverage.get("fault_kinds_fired", {}).items() if k.startswith("discard."))
     runner.write_evidence(prop, tier, seed, eng.LEVEL, coverage, wall, n_viol, eng.ASSUMPTIONS)
     print("runs=%d evaluations=%d distinct_nontrivial=%d wall=%.1fs violations=%d new=%d" % (
         len(results), coverage["evaluations"], coverage["distinct_nontrivial"], wall, n_viol, new))
@@ -78,6 +79,10 @@ def check(prop, tier, runs_override=None):
         return harness_error("; ".join(problems))
     if coverage.get("discarded_steps", 0) > 0.05 * max(1, coverage["evaluations"]):
         return harness_error("too many discarded steps: %d of %d" % (coverage["discarded_steps"], coverage["evaluations"]))
+    died = sum(n for k, n in coverage.get("fault_kinds_fired", {}).items() if k.startswith("discard."))
+    coverage["discarded_runs"] = died
+    if died > 0.05 * max(1, len(results)):
+        return harness_error("too many discarded runs (node cap, unsupported model or per-run time limit): %d of %d" % (died, len(results)))
     return 0
 
 
